@@ -408,6 +408,14 @@ func (e *Env) NewTarget(i int) *Target {
 	return t
 }
 
+// NewTargetAt opens an echo target at 127.A.B.(100+i):port (several targets may share one address).
+func (e *Env) NewTargetAt(i int, port uint16) *Target {
+	addr := netip.AddrPortFrom(e.IP(byte(100+i)), port)
+	t := &Target{Addr: addr, Name: fmt.Sprintf("target%d:%d", i, port), Echo: true}
+	t.Sock = vudp.Listen(addr.String(), t.Name)
+	return t
+}
+
 // Serve echoes until the socket is closed.
 func (t *Target) Serve() {
 	buf := make([]byte, 4096)
